@@ -55,6 +55,7 @@ type runState struct {
 	ms        []*Model // declared graph per graph (construction calls can be per graph)
 	res       *Result
 	ng        int
+	graphs    []*dag.Graph
 	phase     int    // 1, or k during/after the k-th Run of a scenario with extra phases
 	carried   []bool // phase 2: tasks that completed successfully in the first Run
 	curMaxPar int
@@ -122,7 +123,13 @@ func (r *runState) limit() int {
 	return 1 << 30
 }
 
-func isSkip(res string) bool { return res == "skip" || res == "skipw" }
+func isSkip(res string) bool { return strings.HasPrefix(res, "skip") }
+
+// skipIs is an error of the task's own type that declares itself equivalent to dag.ErrorSkipParents.
+type skipIs struct{ why string }
+
+func (e skipIs) Error() string        { return "nothing to do: " + e.why }
+func (e skipIs) Is(target error) bool { return target == dag.ErrorSkipParents }
 func isErr(res string) bool {
 	return res == "err" || res == "errs0" || res == "errs1" || res == "errctx"
 }
@@ -333,6 +340,7 @@ func Execute(sc *Scenario, ch simrt.Chooser, keepTrace bool) *Result {
 		Chooser:      ch,
 		ClockAdvance: sc.Policy.ClockP > 0,
 		YieldOnMake:  true,
+		YieldOnMap:   true,
 		MapBase:      sc.MapBase,
 		KeepTrace:    keepTrace,
 		OnSettled:    r.onSettled,
@@ -406,8 +414,8 @@ func (r *runState) taskFn(i, alt int, cancel context.CancelFunc) getoptions.Comm
 	sc := r.sc
 	return func(ctx context.Context, opt *getoptions.GetOpt, args []string) error {
 		g := 0
-		if len(args) > 0 && args[0] == "g1" {
-			g = 1
+		if len(args) > 0 && len(args[0]) == 2 && args[0][0] == 'g' {
+			g = int(args[0][1] - '0')
 		}
 		m := r.ms[g]
 		simrt.Lock()
@@ -483,8 +491,19 @@ func (r *runState) taskFn(i, alt int, cancel context.CancelFunc) getoptions.Comm
 		if alt == 1 {
 			r.res.Probes["alternate_task_object_executed"]++
 		}
-		if r.taskActive[i][alt] == 1 && r.ng == 2 && r.attempts[1-g][i] > 0 {
-			r.res.Probes["shared_task_ran_in_both_graphs"]++
+		if r.taskActive[i][alt] == 1 && r.ng >= 2 {
+			others := 0
+			for og := 0; og < r.ng; og++ {
+				if og != g && r.attempts[og][i] > 0 {
+					others++
+				}
+			}
+			if others > 0 {
+				r.res.Probes["shared_task_ran_in_both_graphs"]++
+			}
+			if others > 1 {
+				r.res.Probes["shared_task_ran_in_three_graphs"]++
+			}
 		}
 
 		simrt.Unlock()
@@ -492,6 +511,9 @@ func (r *runState) taskFn(i, alt int, cancel context.CancelFunc) getoptions.Comm
 		// ---- behaviour ----
 		if a.Cancel == "entry" {
 			r.doCancel(cancel, "cancel_in_task")
+		}
+		if a.DFS {
+			r.probeDFS(g, fmt.Sprintf("asked by t%02d while it runs", i))
 		}
 		if sc.Buffer {
 			for c, text := range attemptOutput(a, g, i, tagK) {
@@ -581,6 +603,15 @@ func (r *runState) taskFn(i, alt int, cancel context.CancelFunc) getoptions.Comm
 		case "skipw":
 			r.res.Faults["skip_parents_wrapped"]++
 			return fmt.Errorf("condition not met: %w", dag.ErrorSkipParents)
+		case "skipj": // errors.Join: the skip is one of several errors, reachable through Unwrap() []error only
+			r.res.Faults["skip_parents_joined"]++
+			return errors.Join(errors.New("cache is warm"), dag.ErrorSkipParents)
+		case "skipm": // several %w verbs
+			r.res.Faults["skip_parents_joined"]++
+			return fmt.Errorf("%w: %w", errors.New("up to date"), dag.ErrorSkipParents)
+		case "skipis": // an error type with its own Is method
+			r.res.Faults["skip_parents_custom_is"]++
+			return skipIs{"unchanged"}
 		}
 		if k > 0 {
 			r.res.Faults["transient_then_ok"]++
@@ -623,6 +654,7 @@ func (r *runState) main() {
 		return tasks[c.T]
 	}
 	graphs := make([]*dag.Graph, ng)
+	r.graphs = graphs
 	var applyCalls func(gr *dag.Graph, g int, calls []Call)
 	for g := 0; g < ng; g++ {
 		gname := fmt.Sprintf("g%d", g)
@@ -724,7 +756,24 @@ func (r *runState) main() {
 			r.doCancel(cancel, "cancel_external")
 		})
 	}
-	fin := simrt.Make[int](2)
+	// monitors: other goroutines of the program ask the graphs for their order while they run
+	monDone := make([]chan int, ng)
+	monN := make([]int, ng)
+	for g := range monDone {
+		monDone[g] = simrt.Make[int](sc.DFSProbe)
+	}
+	for mi := 0; mi < sc.DFSProbe; mi++ {
+		mi, g := mi, mi%ng
+		monN[g]++
+		simrt.GoNamed(fmt.Sprintf("monitor%d", mi), func() {
+			for k := 0; k < 2; k++ {
+				r.probeDFS(g, fmt.Sprintf("monitor %d, concurrent with Run", mi))
+				simrt.Yield()
+			}
+			simrt.Send(monDone[g], mi)
+		})
+	}
+	fin := simrt.Make[int](ng)
 	for g := 0; g < ng; g++ {
 		g := g
 		simrt.GoNamed(fmt.Sprintf("run:g%d", g), func() {
@@ -743,7 +792,14 @@ func (r *runState) main() {
 				r.histAdd("return " + name + fmt.Sprint(r.runErr[g] == nil))
 				simrt.Unlock()
 			}
+			waitMonitors := func() {
+				// the graph is not touched again (phase 2 construction calls) while a monitor reads it
+				for ; monN[g] > 0; monN[g]-- {
+					simrt.Recv(monDone[g])
+				}
+			}
 			runOnce()
+			waitMonitors()
 			for pi, ph := range sc.ExtraPhases() {
 				if ng != 1 || !r.phase2Applicable() {
 					break
@@ -856,14 +912,15 @@ func (r *runState) onSettled(gname string) {
 		}
 		// a Task shared with the other graph may legitimately be waiting for that graph's
 		// execution of it to finish
-		if r.ng == 2 && (r.taskActive[i][0] > 0 || r.taskActive[i][1] > 0) {
+		if r.ng >= 2 && (r.taskActive[i][0] > 0 || r.taskActive[i][1] > 0) {
 			continue
 		}
-		// slots in use: executing task functions, plus (two graphs only) goroutines of this graph
-		// that hold a slot while waiting for a Task lock held by the other graph
+		// slots in use: executing task functions, plus (several graphs only) goroutines of this graph
+		// that hold a slot while waiting for a Task held by another graph - whatever the Task lock is
+		// made of (a mutex, a channel used as a semaphore, ...)
 		used := r.executing[g]
-		if r.ng == 2 {
-			used += simrt.BlockedCount(name2run(g)+"/", "lock")
+		if r.ng >= 2 {
+			used += simrt.BlockedCount(name2run(g)+"/", "")
 		}
 		if ready && used < r.limit() {
 			r.fail("C16", "O16b", simrt.Note("settled", ""), "g%d: t%02d is ready (all dependencies returned nil), %d of %s slots are in use, no failure or cancellation occurred, its Task is not executing anywhere, and the scheduler stays idle", g, i, used, limStr(r.limit()))
@@ -1009,39 +1066,63 @@ func (r *runState) noneExecuting() bool {
 	return true
 }
 
+// checkDFS is O16d: one answer of DepthFirstSort on graph g, judged against the model. who names
+// the caller when the call overlapped with other activity on the same graph.
+func (r *runState) checkDFS(g int, ids []string, err error, who string) {
+	if !r.checkable() {
+		return
+	}
+	m := r.ms[g]
+	if who != "" {
+		who = " (" + who + ")"
+	}
+	if err != nil {
+		r.fail("C16", "O16d", 0, "DepthFirstSort of an acyclic graph returned an error%s: %v", who, err)
+		return
+	}
+	pos := map[string]int{}
+	for p, id := range ids {
+		if _, dup := pos[id]; dup {
+			r.fail("C16", "O16d", 0, "DepthFirstSort lists %s twice%s: %v", id, who, ids)
+		}
+		pos[id] = p
+	}
+	for _, i := range m.Order {
+		id := r.id(i)
+		p, ok := pos[id]
+		if !ok {
+			r.fail("C16", "O16d", 0, "DepthFirstSort misses %s%s: %v", id, who, ids)
+			continue
+		}
+		for _, d := range m.Deps[i] {
+			if q, ok := pos[r.id(d)]; ok && q > p {
+				r.fail("C16", "O16d", 0, "DepthFirstSort puts %s before its dependency t%02d%s: %v", id, d, who, ids)
+			}
+		}
+	}
+	if len(ids) != len(m.Order) {
+		r.fail("C16", "O16d", 0, "DepthFirstSort returned %d vertices for %d tasks%s: %v", len(ids), len(m.Order), who, ids)
+	}
+}
+
+// probeDFS: one DepthFirstSort call on graph g from whoever is running now, judged at once.
+func (r *runState) probeDFS(g int, who string) {
+	vs, err := r.graphs[g].DepthFirstSort()
+	ids := make([]string, len(vs))
+	for i, v := range vs {
+		ids[i] = string(v.ID)
+	}
+	simrt.Lock()
+	r.res.Probes["dfs_while_running"]++
+	r.checkDFS(g, ids, err, who)
+	simrt.Unlock()
+}
+
 func (r *runState) posthocGraph(g int, final bool) {
 	sc, m, res := r.sc, r.ms[g], r.res
 	n := sc.N
 	// O16d DepthFirstSort (observed before the run)
-	if r.checkable() {
-		if r.dfsErr[g] != nil {
-			r.fail("C16", "O16d", 0, "DepthFirstSort of an acyclic graph returned an error: %v", r.dfsErr[g])
-		} else {
-			pos := map[string]int{}
-			for p, id := range r.dfs[g] {
-				if _, dup := pos[id]; dup {
-					r.fail("C16", "O16d", 0, "DepthFirstSort lists %s twice: %v", id, r.dfs[g])
-				}
-				pos[id] = p
-			}
-			for _, i := range m.Order {
-				id := r.id(i)
-				p, ok := pos[id]
-				if !ok {
-					r.fail("C16", "O16d", 0, "DepthFirstSort misses %s: %v", id, r.dfs[g])
-					continue
-				}
-				for _, d := range m.Deps[i] {
-					if q, ok := pos[r.id(d)]; ok && q > p {
-						r.fail("C16", "O16d", 0, "DepthFirstSort puts %s before its dependency t%02d: %v", id, d, r.dfs[g])
-					}
-				}
-			}
-			if len(r.dfs[g]) != len(m.Order) {
-				r.fail("C16", "O16d", 0, "DepthFirstSort returned %d vertices for %d tasks: %v", len(r.dfs[g]), len(m.Order), r.dfs[g])
-			}
-		}
-	}
+	r.checkDFS(g, r.dfs[g], r.dfsErr[g], "")
 	if !r.returned[g] {
 		return
 	}
